@@ -44,6 +44,10 @@ void SoPlexBase<R>::_optimize(volatile bool* interrupt)
    _solReal.invalidate();
    ++_optimizeCalls;
 
+   // the floating-point solve moves to another basis; a rational factorization loaded for the old one must not be
+   // handed out by the rational basis-inverse queries afterwards
+   _rationalLUSolver.clear();
+
    // start timing
    _statistics->solvingTime->start();
 
